@@ -9,7 +9,11 @@
 (***************************************************************************)
 EXTENDS ZipSender, TLC
 
-CONSTANTS Modes, NRec, Sizes, Times, MaxBufs, MaxWaits, ZipMins, QCaps, Keeps, Gates, MaxDirect, Reconfig
+CONSTANTS Modes, NRec, Sizes, Times, MaxBufs, MaxWaits, ZipMins, QCaps, Keeps, Gates, MaxDirect, Reconfig,
+          EarlyFlush,     \* TRUE: an append may flush although no limit is reached (the property does not forbid it)
+          WithDefaults    \* TRUE: creation without settings is explored too
+
+VARIABLE ncfg    \* configuration updates so far (at most Reconfig)
 
 Choices == {[maxBuf |-> b, maxWait |-> w, zipMin |-> z, qCap |-> q] :
               b \in MaxBufs, w \in MaxWaits, z \in ZipMins, q \in QCaps}
@@ -24,22 +28,31 @@ Batches(i, n) == IF n = 0 THEN {<<>>}
                  ELSE {<<>>} \cup {<<NewRec(i, sz, t)>> \o rest :
                                      sz \in Sizes, t \in {MinTime}, rest \in Batches(i + 1, n - 1)}
 
+\* the flush decision of an appending step: the design flushes exactly when a limit is reached
+Fl(due) == IF EarlyFlush THEN BOOLEAN ELSE {due}
 
-MCNext ==
-  \/ \E m \in Modes : New(m, FALSE, Defaults) \/ \E c \in Choices : New(m, TRUE, c)
-  \/ \E c \in Choices : Reconfig /\ ~configured /\ ApplyConfig(c)
+MCStep ==
+  \/ \E m \in Modes : (WithDefaults /\ New(m, FALSE, Defaults)) \/ \E c \in Choices : New(m, TRUE, c)
   \/ \E sz \in Sizes, t \in Times :
         NextId <= NRec /\ (Add(NewRec(NextId, sz, t)) \/ AppendBegin(NewRec(NextId, sz, t)))
-  \/ \E rs \in Batches(NextId, MaxDirect) : MaxDirect > 0 /\ accD = <<>> /\ NextId + Len(rs) <= NRec + 1 /\ DirectBegin(rs)
-  \/ \E k \in Keeps : \/ \E g \in Gates : Take(k, g) \/ Idle(k, g) \/ Finish(k, g)
-                      \/ AppendExec(k) \/ DStep(k) \/ DTail(k)
+  \/ \E rs \in Batches(NextId, MaxDirect) : MaxDirect > 0 /\ drid = 0 /\ NextId + Len(rs) <= NRec + 1 /\ DirectBegin(rs)
+  \/ \E k \in Keeps :
+        \/ \E g \in Gates :
+              \/ queue # <<>> /\ \E fl \in Fl(AppendDue(Head(queue))) : Take(k, g, fl)
+              \/ Idle(k, g) \/ Finish(k, g)
+        \/ acall # <<>> /\ \E fl \in Fl(AppendDue(acall[1])) : AppendExec(k, fl)
+        \/ dactive /\ dq # <<>> /\ \E fl \in Fl(DirectDue) : DStep(k, fl)
+        \/ DTail(k)
   \/ DirectEnd
   \/ Stop
   \/ Release
 
-MCSpec == Init /\ [][MCNext]_vars
+MCNext ==
+  \/ MCStep /\ UNCHANGED ncfg
+  \/ \E c \in Choices : ncfg < Reconfig /\ c # settings /\ ApplyConfig(c) /\ ncfg' = ncfg + 1
 
-FlushWhenDue == [][FlushWhenDueStep]_vars
+MCInit == Init /\ ncfg = 0
+MCSpec == MCInit /\ [][MCNext]_<<vars, ncfg>>
 
-\* sanity: interesting situations are reachable (checked with "expect violation" never; read from -coverage)
+FlushWhenDue == [][FlushWhenDueStep]_<<vars, ncfg>>
 =============================================================================
